@@ -1018,6 +1018,22 @@ def rule_units(ctx, rep, rid="R-C05-units"):
             bad = sorted("%s.%s" % (x[1].split("::")[-1], x[2]) for x in src if x[0] == "field" and (x[1], x[2]) in BYTE_FIELDS)
             bad += sorted(x[1] for x in src if x[0] == "call" and BYTE_CALLS.search(x[1]))
             inst = "%s|Position::new#%d character" % (norm(b.id).replace("ironplcc::", ""), k)
+            # code points: a counter that is stepped by a constant for each `char` of a text counts characters, not UTF-16 code units
+            cp = False
+            if any((c2.u or "").endswith("Iterator::next") and "Chars" in ((c2.ga or "") + (c2.callee or "")) for c2 in b.calls()):
+                ap = op_place(c.args[1])
+                cl = b.root(ap)[0] if ap is not None else None
+                for _, _, st in b.all_stmts():
+                    if st[0] == "=" and st[2][0] == "bin" and st[2][1].startswith("Add"):
+                        pls = [op_place(o) for o in (st[2][2], st[2][3])]
+                        if any(p_ is not None and not p_[1] and p_[0] == cl for p_ in pls):
+                            other = [o for o, p_ in zip((st[2][2], st[2][3]), pls) if not (p_ is not None and not p_[1] and p_[0] == cl)]
+                            if other and panics_int(b, other[0]) not in (None, 0):
+                                cp = True
+            if cp and not bad:
+                r.finding(inst + "|code-points", loc_str(b.f, c.loc), "the character position is a counter stepped by one per `char`: the protocol counts UTF-16 code units, so the range is one "
+                          "too far left for every character outside the basic plane (an emoji) before the label on its line")
+                continue
             if bad:
                 r.finding(inst + "|byte-valued", loc_str(b.f, c.loc), "the character position is computed from byte quantities (%s): every multi-byte "
                           "character before the label on its line shifts the published range" % ", ".join(bad))
